@@ -352,6 +352,296 @@ theorem step_upload (s : Srv) (p : Params) (hwf : Wf p) (cnt : Nat) (o : Obj) (h
   simp only [initUpload, rd16_eq_u16, rd8_eq_byte, c3]
   rw [upReq_eq, u16_sdoHdr3 _ _ _ _ _ hidx, byte_sdoHdr5 _ _ _ _ _ hsub]
   simp only [hfind, uploadAnswer]
-  split <;> rfl
+
+theorem upExpCmd_facts (n : Nat) (h1 : 1 ≤ n) (h4 : n ≤ 4) (ca : Bool) :
+    (0x43 ||| ((4 - n) <<< 2) ||| caBit ca) < 256 ∧ (0x43 ||| ((4 - n) <<< 2) ||| caBit ca) &&& 2 ≠ 0 ∧
+      10 - (((0x43 ||| ((4 - n) <<< 2) ||| caBit ca) >>> 2) &&& 3) = 6 + n := by
+  have : n = 1 ∨ n = 2 ∨ n = 3 ∨ n = 4 := by omega
+  rcases this with rfl | rfl | rfl | rfl <;> cases ca <;> decide
+
+theorem coeRes_facts : svcSdoRes <<< 12 < 65536 ∧ (svcSdoRes <<< 12) >>> 12 = coe_SDORES := by decide
+
+/-- an expedited upload response is unpacked to exactly the object's bytes -/
+theorem readCont_expedited (p : Params) (hwf : Wf p) (v : List UInt8) (h1 : 1 ≤ v.length) (h4 : v.length ≤ 4)
+    (ca : Bool) (s : St) :
+    readCont p (sdoBody svcSdoRes (0x43 ||| ((4 - v.length) <<< 2) ||| caBit ca) p.index (subOr1 p)
+      (v ++ zeros (4 - v.length))) s = (s, .ok v) := by
+  obtain ⟨ho, hi, hi2, hidx, hsub⟩ := hwf
+  obtain ⟨c1, c2, c3⟩ := upExpCmd_facts v.length h1 h4 ca
+  obtain ⟨r1, r2⟩ := coeRes_facts
+  rw [sdoBody_eq]
+  have hlen : ¬ (sdoHdr (svcSdoRes <<< 12) (0x43 ||| ((4 - v.length) <<< 2) ||| caBit ca) p.index (subOr1 p) ++
+      (v ++ zeros (4 - v.length))).length < 10 := by
+    simp [sdoHdr_length]; omega
+  unfold readCont
+  simp only [hlen, if_false, u16_sdoHdr0 _ _ _ _ _ r1, byte_sdoHdr2 _ _ _ _ _ c1, u16_sdoHdr3 _ _ _ _ _ hidx, r2, c3]
+  simp only [ne_eq, not_true_eq_false, if_false, c2, not_false_eq_true]
+  simp [slice, drop6_sdoHdr, M.pure, pure]
+
+theorem u32_sdoHdr6 (coe cmd idx sub n : Nat) (rest : List UInt8) (h : n < 256 ^ 4) :
+    u32 (sdoHdr coe cmd idx sub ++ (encLE 4 n ++ rest)) 6 = n := by
+  have : slice (sdoHdr coe cmd idx sub ++ (encLE 4 n ++ rest)) 6 (6 + 4) = encLE 4 n := by
+    simp [slice, drop6_sdoHdr]
+  rw [u32, this, decLE_encLE 4 n h]
+
+theorem drop10_sdoHdr (coe cmd idx sub n : Nat) (rest : List UInt8) :
+    (sdoHdr coe cmd idx sub ++ (encLE 4 n ++ rest)).drop 10 = rest := by
+  have : (sdoHdr coe cmd idx sub ++ (encLE 4 n ++ rest)).drop 10
+      = ((sdoHdr coe cmd idx sub ++ (encLE 4 n ++ rest)).drop 6).drop 4 := by simp
+  rw [this, drop6_sdoHdr]; simp
+
+/-- a normal upload response that carries the whole object is unpacked to exactly the object's bytes -/
+theorem readCont_normal (p : Params) (hwf : Wf p) (v : List UInt8) (hv : v.length < 256 ^ 4) (ca : Bool) (s : St) :
+    readCont p (sdoBody svcSdoRes (0x41 ||| caBit ca) p.index (subOr1 p) (encLE 4 v.length ++ v)) s = (s, .ok v) := by
+  obtain ⟨ho, hi, hi2, hidx, hsub⟩ := hwf
+  obtain ⟨r1, r2⟩ := coeRes_facts
+  have c1 : (0x41 ||| caBit ca) < 256 ∧ (0x41 ||| caBit ca) &&& 2 = 0 := by cases ca <;> decide
+  rw [sdoBody_eq]
+  have hlen : ¬ (sdoHdr (svcSdoRes <<< 12) (0x41 ||| caBit ca) p.index (subOr1 p) ++ (encLE 4 v.length ++ v)).length < 10 := by
+    simp [sdoHdr_length]; omega
+  unfold readCont
+  simp only [hlen, if_false, u16_sdoHdr0 _ _ _ _ _ r1, byte_sdoHdr2 _ _ _ _ _ c1.1, u16_sdoHdr3 _ _ _ _ _ hidx, r2, c1.2,
+    u32_sdoHdr6 _ _ _ _ _ _ hv, drop10_sdoHdr]
+  simp only [ne_eq, not_true_eq_false, if_false]
+  simp [segLoop, finish, joinItems, M.pure, pure]
+
+/-! ### schedules: only the first slot matters when one exchange settles the call -/
+
+def hdSlot (sched : List Slot) : Slot := sched.headD ⟨false, [], 0⟩
+
+theorem mkMails_nil (inSz : Nat) (sched : List Slot) :
+    mkMails inSz sched [] = (hdSlot sched).pre.map (toMail inSz 0) := by
+  cases sched <;> simp [mkMails, hdSlot]
+
+theorem mkMails_one (inSz : Nat) (sched : List Slot) (resp : List UInt8) :
+    mkMails inSz sched [[resp]] =
+      (hdSlot sched).pre.map (toMail inSz 0) ++ toMail inSz (hdSlot sched).delay resp :: mkMails inSz sched.tail [] := by
+  cases sched <;> simp [mkMails, hdSlot]
+
+theorem fulls_head (sched : List Slot) : (sched.map (·.full)).headD false = (hdSlot sched).full := by
+  cases sched <;> simp [hdSlot]
+
+theorem schedOk_head (inSz : Nat) (sched : List Slot) (h : SchedOk inSz sched) :
+    (∀ m ∈ (hdSlot sched).pre, unrelated inSz m = true) ∧ ((hdSlot sched).full = true → (hdSlot sched).pre ≠ []) := by
+  cases sched with
+  | nil => simp [hdSlot]
+  | cons sl sls => simpa [hdSlot] using h sl (by simp)
+
+theorem sdoRead_eq (p : Params) :
+    sdoRead p = (mbxSend (upReq p) >>= fun _ => recvCoe >>= fun data => readCont p data) := rfl
+
+/-- an upload that the first response settles, in the composed system -/
+theorem read_exchange (p : Params) (cnt : Nat) (sched : List Slot) (objs : List Obj) (hwf : Wf p)
+    (hs : SchedOk p.inSz sched) (resp data v : List UInt8) (srv1 : Srv)
+    (hsrv : step (init p.outSz p.inSz objs) (msgOf cnt (upReq p)) = (srv1, [resp]))
+    (hdec : decodeMail (padTo p.inSz resp) = .ok (mbx_COE, data))
+    (hcont : ∀ s, readCont p data s = (s, .ok v)) :
+    ∀ n, 1 ≤ n →
+      (system ⟨p, .read, cnt, sched, objs⟩ n).outcome = .ok v ∧
+      (system ⟨p, .read, cnt, sched, objs⟩ n).objs = srv1.objs ∧
+      (system ⟨p, .read, cnt, sched, objs⟩ n).responses = [[resp]] ∧
+      sent (system ⟨p, .read, cnt, sched, objs⟩ n).trace = [msgOf cnt (upReq p)] := by
+  obtain ⟨hpre, hfull⟩ := schedOk_head p.inSz sched hs
+  rw [← fulls_head] at hfull
+  have hb : (upReq p).length < 65536 := by simp
+  apply single_exchange ⟨p, .read, cnt, sched, objs⟩ (msgOf cnt (upReq p)) resp srv1 (.ok v)
+  · simp; exact hwf.1
+  · obtain ⟨s', h1, h2⟩ := exchange_blocked p.inSz cnt (sched.map (·.full)) (hdSlot sched).pre (upReq p)
+      (fun data => readCont p data) hpre hfull hb
+    simp only [run, master, Setup.fulls, mkMails_nil, sdoRead_eq, h1, h2]
+  · exact hsrv
+  · obtain ⟨tr, h1, h2⟩ := exchange_ok p.inSz cnt (sched.map (·.full)) (hdSlot sched).pre (upReq p)
+      (fun data => readCont p data) (hdSlot sched).delay resp data (mkMails p.inSz sched.tail []) hpre hfull hb hdec
+    simp only [run, master, Setup.fulls, mkMails_one, sdoRead_eq, h2, hcont, h1]
+  · obtain ⟨tr, h1, h2⟩ := exchange_ok p.inSz cnt (sched.map (·.full)) (hdSlot sched).pre (upReq p)
+      (fun data => readCont p data) (hdSlot sched).delay resp data (mkMails p.inSz sched.tail []) hpre hfull hb hdec
+    simp only [run, master, Setup.fulls, mkMails_one, sdoRead_eq, h2, hcont]
+
+theorem sdoBody_length (svc cmd i sub : Nat) (rest : List UInt8) : (sdoBody svc cmd i sub rest).length = 6 + rest.length := by
+  simp [sdoBody]; omega
+
+/-- the run of an upload that one response settles: the object's bytes, one 16-byte request, one response that fits -/
+theorem read_run (p : Params) (cnt : Nat) (sched : List Slot) (objs : List Obj) (o : Obj) (hwf : Wf p)
+    (hs : SchedOk p.inSz sched) (hobj : Holds p objs o)
+    (hlen : (1 ≤ o.val.length ∧ o.val.length ≤ 4) ∨ o.val.length + 16 ≤ p.inSz) :
+    ∃ resp : List UInt8, resp.length ≤ p.inSz ∧ ∀ n, 1 ≤ n →
+      (system ⟨p, .read, cnt, sched, objs⟩ n).outcome = .ok o.val ∧
+      (system ⟨p, .read, cnt, sched, objs⟩ n).objs = objs ∧
+      (system ⟨p, .read, cnt, sched, objs⟩ n).responses = [[resp]] ∧
+      sent (system ⟨p, .read, cnt, sched, objs⟩ n).trace = [msgOf cnt (upReq p)] := by
+  have hup := step_upload (init p.outSz p.inSz objs) p hwf cnt o rfl hobj
+  have hcoe : mbxCoE = mbx_COE := by decide
+  obtain ⟨ho, hi, hi2, hidx, hsub⟩ := hwf
+  by_cases hexp : 1 ≤ o.val.length ∧ o.val.length ≤ 4
+  · simp only [uploadAnswer, hexp, and_self, if_true, respond, mail_eq] at hup
+    refine ⟨_, ?_, read_exchange p cnt sched objs ⟨ho, hi, hi2, hidx, hsub⟩ hs _
+      (sdoBody svcSdoRes (0x43 ||| (4 - o.val.length) <<< 2 ||| caBit p.sub.isNone) p.index (subOr1 p)
+        (o.val ++ zeros (4 - o.val.length))) o.val _ hup ?_ ?_⟩
+    · simp [sdoBody_length]; omega
+    · rw [← hcoe]
+      exact decodeMail_srvMail _ _ _ _ (by simp [sdoBody_length]; omega) (by simp [sdoBody_length]; omega)
+        (by decide) (by decide)
+    · intro s
+      exact readCont_expedited p ⟨ho, hi, hi2, hidx, hsub⟩ o.val hexp.1 hexp.2 _ s
+  · have hfit : o.val.length + 16 ≤ p.inSz := by
+      rcases hlen with h | h
+      · exact absurd h hexp
+      · exact h
+    have hnot : ¬ o.val.length > (init p.outSz p.inSz objs).inSz - 16 := by simp [init]; omega
+    have htake : o.val.take ((init p.outSz p.inSz objs).inSz - 16) = o.val :=
+      List.take_of_length_le (by simp [init]; omega)
+    simp only [uploadAnswer, hexp, if_false, hnot, htake, respond, mail_eq] at hup
+    refine ⟨_, ?_, read_exchange p cnt sched objs ⟨ho, hi, hi2, hidx, hsub⟩ hs _
+      (sdoBody svcSdoRes (0x41 ||| caBit p.sub.isNone) p.index (subOr1 p) (encLE 4 o.val.length ++ o.val)) o.val _ hup ?_ ?_⟩
+    · simp [sdoBody_length]; omega
+    · rw [← hcoe]
+      exact decodeMail_srvMail _ _ _ _ (by simp [sdoBody_length]; omega) (by simp [sdoBody_length]; omega)
+        (by decide) (by decide)
+    · intro s
+      exact readCont_normal p ⟨ho, hi, hi2, hidx, hsub⟩ o.val (by omega) _ s
+
+/-! ## the property, mode by mode -/
+
+/-- **expedited upload**: an object of 1..4 bytes is returned byte for byte — every content, index, subindex or
+complete access, mailbox sizes, counter, and every schedule of delays, unrelated mail and drains -/
+theorem read_expedited_exact (p : Params) (cnt : Nat) (sched : List Slot) (objs : List Obj) (o : Obj) (hwf : Wf p)
+    (hs : SchedOk p.inSz sched) (hobj : Holds p objs o) (h1 : 1 ≤ o.val.length) (h4 : o.val.length ≤ 4) :
+    ∀ n, 1 ≤ n → (system ⟨p, .read, cnt, sched, objs⟩ n).outcome = .ok o.val := by
+  obtain ⟨resp, _, h⟩ := read_run p cnt sched objs o hwf hs hobj (Or.inl ⟨h1, h4⟩)
+  exact fun n hn => (h n hn).1
+
+/-- **normal upload in one frame**: an object of 0 or 5..`inSz − 16` bytes is returned byte for byte -/
+theorem read_normal_exact (p : Params) (cnt : Nat) (sched : List Slot) (objs : List Obj) (o : Obj) (hwf : Wf p)
+    (hs : SchedOk p.inSz sched) (hobj : Holds p objs o) (hfit : o.val.length + 16 ≤ p.inSz) :
+    ∀ n, 1 ≤ n → (system ⟨p, .read, cnt, sched, objs⟩ n).outcome = .ok o.val := by
+  obtain ⟨resp, _, h⟩ := read_run p cnt sched objs o hwf hs hobj (Or.inr hfit)
+  exact fun n hn => (h n hn).1
+
+/-! ### expedited download -/
+
+/-- what `sdo_write` does with the mail it receives after an expedited request -/
+def expCont (p : Params) (td : Nat × List UInt8) : M (List UInt8) :=
+  if td.1 ≠ mbx_COE then fail .nameError
+  else if td.2.length < 6 then fail .structError
+  else if u16 td.2 3 ≠ p.index ∨ p.sub ≠ some (byte td.2 5) then fail .ethercat
+  else if u16 td.2 0 >>> 12 ≠ coe_SDORES then fail .ethercat
+  else pure []
+
+theorem sdoWrite_exp_eq (p : Params) (v : List UInt8) (h : v.length ≤ 4 ∧ p.sub.isSome = true) :
+    sdoWrite p v = (mbxSend (expReq p v) >>= fun _ => mbxRecv >>= expCont p) := by
+  unfold sdoWrite
+  simp only [h, and_self, if_true]
+  rfl
+
+theorem mbxRecv_nil (s : St) (h : s.mails = []) : mbxRecv s = (s, .err .blocked) := by
+  simp [mbxRecv, h]
+
+theorem mbxRecv_cons (s : St) (m : Mail) (ms : List Mail) (h : s.mails = m :: ms) :
+    mbxRecv s = ({ s with mails := ms, tr := s.tr ++ polls m.delay }, decodeMail m.raw) := by
+  simp [mbxRecv, h]
+
+theorem delaysOnly_head (sched : List Slot) (h : DelaysOnly sched) :
+    (hdSlot sched).pre = [] ∧ (hdSlot sched).full = false ∧ DelaysOnly sched.tail := by
+  cases sched with
+  | nil => simp [hdSlot, DelaysOnly]
+  | cons sl sls =>
+    refine ⟨(h sl (by simp)).1, (h sl (by simp)).2, fun x hx => h x (by simp at hx ⊢; exact Or.inr hx)⟩
+
+@[simp] theorem expReq_length (p : Params) (v : List UInt8) (h : v.length ≤ 4) : (expReq p v).length = 10 := by
+  simp [expReq, sdoHdr_length]; omega
+
+/-- request written with nothing pending, no answer: the call waits, having sent exactly the request -/
+theorem wexchange_blocked {α : Type} (cnt : Nat) (fulls : List Bool) (body : List UInt8) (k : Nat × List UInt8 → M α)
+    (hf : fulls.headD false = false) (hb : body.length < 65536) :
+    ∃ s', (mbxSend body >>= fun _ => mbxRecv >>= k) ⟨cnt, fulls, [], []⟩ = (s', .err .blocked) ∧
+      sent s'.tr = [msgOf cnt body] := by
+  rw [bind_ok (mbxSend_nofull body ⟨cnt, fulls, [], []⟩ hb hf)]
+  exact ⟨_, bind_err (mbxRecv_nil _ rfl), by simp [sent]⟩
+
+/-- request written with nothing pending, the next mail is `raw`: the call goes on with what it decodes to -/
+theorem wexchange_ok {α : Type} (cnt : Nat) (fulls : List Bool) (body : List UInt8) (k : Nat × List UInt8 → M α)
+    (d : Nat) (raw : List UInt8) (rest : List Mail) (td : Nat × List UInt8)
+    (hf : fulls.headD false = false) (hb : body.length < 65536) (hdec : decodeMail raw = .ok td) :
+    ∃ tr, sent tr = [msgOf cnt body] ∧
+      (mbxSend body >>= fun _ => mbxRecv >>= k) ⟨cnt, fulls, ⟨d, raw⟩ :: rest, []⟩ =
+        k td ⟨cnt % mbxMod + 1, fulls.tail, rest, tr⟩ := by
+  rw [bind_ok (mbxSend_nofull body ⟨cnt, fulls, ⟨d, raw⟩ :: rest, []⟩ hb hf)]
+  refine ⟨[] ++ [.st0 false, .send (msgOf cnt body), .kick] ++ polls d, by simp [sent], ?_⟩
+  exact bind_ok (by rw [mbxRecv_cons _ _ _ rfl]; simp [hdec])
+
+/-- an expedited download in the composed system, whatever the server makes of the request -/
+theorem exp_exchange (p : Params) (cnt : Nat) (sched : List Slot) (objs : List Obj) (v : List UInt8) (hwf : Wf p)
+    (hs : DelaysOnly sched) (hv : v.length ≤ 4) (hsub : p.sub.isSome = true)
+    (resp : List UInt8) (td : Nat × List UInt8) (srv1 : Srv) (o : R (List UInt8))
+    (hsrv : step (init p.outSz p.inSz objs) (msgOf cnt (expReq p v)) = (srv1, [resp]))
+    (hdec : decodeMail (padTo p.inSz resp) = .ok td)
+    (hcont : ∀ s, expCont p td s = (s, o)) :
+    ∀ n, 1 ≤ n →
+      (system ⟨p, .write v, cnt, sched, objs⟩ n).outcome = o ∧
+      (system ⟨p, .write v, cnt, sched, objs⟩ n).objs = srv1.objs ∧
+      (system ⟨p, .write v, cnt, sched, objs⟩ n).responses = [[resp]] ∧
+      sent (system ⟨p, .write v, cnt, sched, objs⟩ n).trace = [msgOf cnt (expReq p v)] := by
+  obtain ⟨hpre, hfull, htail⟩ := delaysOnly_head sched hs
+  rw [← fulls_head] at hfull
+  have hb : (expReq p v).length < 65536 := by simp [hv]
+  apply single_exchange ⟨p, .write v, cnt, sched, objs⟩ (msgOf cnt (expReq p v)) resp srv1 o
+  · simp [hv]; exact hwf.1
+  · obtain ⟨s', h1, h2⟩ := wexchange_blocked cnt (sched.map (·.full)) (expReq p v) (expCont p) hfull hb
+    simp only [run, master, Setup.fulls, mkMails_nil, hpre, List.map_nil, sdoWrite_exp_eq p v ⟨hv, hsub⟩, h1, h2]
+  · exact hsrv
+  · obtain ⟨tr, h1, h2⟩ := wexchange_ok cnt (sched.map (·.full)) (expReq p v) (expCont p) (hdSlot sched).delay
+      (padTo p.inSz resp) (mkMails p.inSz sched.tail []) td hfull hb hdec
+    simp only [run, master, Setup.fulls, mkMails_one, hpre, List.map_nil, List.nil_append, toMail,
+      sdoWrite_exp_eq p v ⟨hv, hsub⟩, h2, hcont, h1]
+  · obtain ⟨tr, h1, h2⟩ := wexchange_ok cnt (sched.map (·.full)) (expReq p v) (expCont p) (hdSlot sched).delay
+      (padTo p.inSz resp) (mkMails p.inSz sched.tail []) td hfull hb hdec
+    simp only [run, master, Setup.fulls, mkMails_one, hpre, List.map_nil, List.nil_append, toMail,
+      sdoWrite_exp_eq p v ⟨hv, hsub⟩, h2, hcont]
+
+/-- the command byte of the expedited download request -/
+def expCmd (n : Nat) : Nat := od_DOWN_EXP ||| (((4 - n) <<< 2) &&& 0xc)
+
+theorem expReq_eq (p : Params) (v : List UInt8) :
+    expReq p v = sdoHdr (coe_SDOREQ <<< 12) (expCmd v.length) p.index (subOr1 p) ++ (v ++ zeros (4 - v.length)) := rfl
+
+theorem expCmd_facts (n : Nat) (h1 : 1 ≤ n) (h4 : n ≤ 4) :
+    expCmd n < 256 ∧ expCmd n >>> 5 = 1 ∧ (expCmd n &&& 0x10 != 0) = false ∧ (expCmd n &&& 2 != 0) = true ∧
+      (expCmd n &&& 1 != 0) = true ∧ 4 - ((expCmd n >>> 2) &&& 3) = n := by
+  have : n = 1 ∨ n = 2 ∨ n = 3 ∨ n = 4 := by omega
+  rcases this with rfl | rfl | rfl | rfl <;> decide
+
+theorem find_store (objs : List Obj) (i s : Nat) (ca : Bool) (o : Obj) (v : List UInt8)
+    (h : find objs i s ca = some o) : find (store objs i s ca v) i s ca = some { o with val := v } := by
+  induction objs with
+  | nil => simp [find] at h
+  | cons x xs ih =>
+    simp only [find, store, List.map_cons, List.find?_cons] at h ⊢
+    by_cases hx : (x.index == i && x.sub == s && x.ca == ca) = true
+    · simp only [hx, if_true] at h ⊢
+      have : x = o := by simpa using h
+      subst this
+      simp
+    · simp only [hx] at h ⊢
+      simp only [Bool.false_eq_true, if_false, hx]
+      exact ih h
+
+/-- a conformant server stores the 1..4 data bytes of an expedited download and confirms -/
+theorem step_download_exp (s : Srv) (p : Params) (hwf : Wf p) (cnt : Nat) (o : Obj) (v : List UInt8)
+    (hsz : s.outSz = p.outSz) (hsub : p.sub.isSome = true)
+    (hfind : find s.objs p.index (subOr1 p) false = some o) (h1 : 1 ≤ v.length) (h4 : v.length ≤ 4)
+    (hcap : v.length ≤ o.cap) :
+    step s (msgOf cnt (expReq p v)) =
+      respond { s with xfer := .idle, objs := store s.objs p.index (subOr1 p) false v } 0x60 p.index (subOr1 p) (zeros 4) := by
+  obtain ⟨ho, hi, hi2, hidx, hsb⟩ := hwf
+  obtain ⟨c1, c2, c3, c4, c5, c6⟩ := expCmd_facts v.length h1 h4
+  have hsvc : u16 (expReq p v) 0 >>> 12 = 2 := by
+    rw [expReq_eq, u16_sdoHdr0 _ _ _ _ _ (by decide)]; decide
+  rw [step_sdo s cnt (expReq p v) (by simp [h4]) (by simp [h4]; omega) (by simp [h4]) hsvc]
+  have hcmd : byte (expReq p v) 2 = expCmd v.length := by rw [expReq_eq, byte_sdoHdr2 _ _ _ _ _ c1]
+  rw [hcmd, c2]
+  simp only [initDownload, rd16_eq_u16, rd8_eq_byte, c3, c4, c5, c6, if_true]
+  rw [expReq_eq, u16_sdoHdr3 _ _ _ _ _ hidx, byte_sdoHdr5 _ _ _ _ _ hsb, drop6_sdoHdr]
+  have hn : ¬ v.length > o.cap := by omega
+  simp [hfind, hn, caBit]
 
 end Ebv.C16
